@@ -7,7 +7,6 @@ From J5V.model Require Import J5sAst Desc J5sWalk J5sLink J5sConvert J5sContract
 Import ListNotations.
 Local Open Scope N_scope.
 
-Definition valid (bd : bundle) : bool := valid_bundle to_snake to_camel bd.
 
 Definition sfield (n : string) : property := Property (b n) false false (FScalar SString).
 Definition foo_v1 : list str := [b "foo"; b "v1"].
